@@ -34,17 +34,18 @@ def run(ctx):
         key_fn=key_fn, what_fn=what_fn,
         translators=[("runasync", "RunAsyncGen.v"), ("grpcwarmup", "GrpcWarmUpGen.v"), ("gofn-runinst", "GoFnRunInstGen.v"),
                      ("encaggr", "EncAggrGen.v"), ("plugconv", "PlugConvGen.v"),
-                     ("scandecode", "ScanDecodeGen.v")],
+                     ("scandecode", "ScanDecodeGen.v"), ("jsondecode", "JsonDecodeGen.v")],
         bridge_files=["Gen/RunAsync_bridge.v", "Gen/GrpcWarmUp_bridge.v", "Gen/GoFnRunInst_bridge.v", "Gen/EncAggr_bridge.v",
-                      "Gen/PlugConv_bridge.v", "Gen/ScanDecode_bridge.v"],
+                      "Gen/PlugConv_bridge.v", "Gen/ScanDecode_bridge.v", "Gen/JsonDecode_bridge.v"],
         trusted=[
             "extraction: ExtrOcamlBasic only; OCaml driver ocaml/C05/main.ml (history tokens -> model events) + ocaml/common/conv.ml",
             "correspondence harness harness/cmd/hC05: real engine.Engine with fault-plan mocks; the receive order of the await loop, "
             "the pool fronts and Engine.Run is read from the engine's own zap log (zaptest/observer), markers are logged before the effect they announce",
             "the real grpc gun's warm-up runs against a hand-written in-process reflection endpoint (harness/cmd/hC05/grpcwarm.go); what the "
             "client library (jhump/protoreflect grpcreflect) makes of the endpoint's answers is abstracted to 'descriptors / error of a status code'",
-            "translators encaggr / plugconv / scandecode match the statements of dataSinkAggregator.Run, convertFactoryOutParams + "
-            "pluginConstructor.NewFactory and ScanAmmoDecoder.Decode as normalised source text against the grammar in their headers; the "
+            "translators encaggr / plugconv / scandecode / jsondecode match the statements of dataSinkAggregator.Run, convertFactoryOutParams + "
+            "pluginConstructor.NewFactory, ScanAmmoDecoder.Decode, and errTrackingReader + JSONAmmoDecoder.Decode + the guard statement of "
+            "DecodeProvider.Run + passGuard.Seek as normalised source text against the grammar in their headers; the "
             "encoder aggregator's environment (select order, operation outcomes, dropped samples) and reflect values (implementation / "
             "plugin interface / error) are abstractions tied to the code by the recorded operation trace (V) and factory calls (F)",
             "modelled, not verified: instances/start loop/provider/aggregator are producers of one result each (their internals: C03, C06, C08, C12); "
